@@ -3,7 +3,12 @@ package share
 import (
 	"bytes"
 	"encoding/binary"
+	"errors"
 )
+
+// errIncompleteDelimiter is returned by parseDelimiter if the input ends in
+// the middle of a unit length delimiter.
+var errIncompleteDelimiter = errors.New("incomplete unit length delimiter")
 
 // delimLen calculates the length of the delimiter for a given unit size
 func delimLen(size uint64) int {
@@ -48,6 +53,12 @@ func parseDelimiter(input []byte) (inputWithoutLenDelimiter []byte, unitLen uint
 	l := binary.MaxVarintLen64
 	if len(input) < binary.MaxVarintLen64 {
 		l = len(input)
+	}
+
+	// A delimiter that is cut off by the end of the input must not be completed
+	// with zero bytes: that would decode to a length that was never written.
+	if _, n := binary.Uvarint(input[:l]); n == 0 && l < binary.MaxVarintLen64 {
+		return nil, 0, errIncompleteDelimiter
 	}
 
 	delimiter, _ := zeroPadIfNecessary(input[:l], binary.MaxVarintLen64)
